@@ -168,6 +168,25 @@ def invariance_run(eng, NM, Q, N, deg, fail):
             same(S.seminorm_h_1_2_pw(flg, A, Bp, g1, Bp, C, g2), union,
                  'H^{1/2} two-piece variant (order %d): two collinear pieces of lengths %s and %s do not give the value '
                  'of the union interval' % (N, l1, l2), rtol=1e-10)
+        # the two pieces carry INDEPENDENT parameters (both start at 0; the wrap-around pair of a closed polygon: the
+        # first piece ends at L, the second starts at 0): the datum is given in the embedded coordinate, the value
+        # must still be that of the union interval
+        emb = lambda x_hat, g: lowdeg(g(x_hat)[0])
+        for (l1, l2, s1, s2) in ((Fraction(1), Fraction(1, 2), Fraction(0), Fraction(0)),
+                                 (Fraction(1, 4), Fraction(1), Fraction(15, 4), Fraction(0)),
+                                 (Fraction(3, 2), Fraction(1, 8), Fraction(2), Fraction(7))):
+            def h1(x_hat, s1=s1):
+                x_hat = np.atleast_1d(x_hat)
+                return np.array([[SR.lift(v) - s1 for v in x_hat], [SR.lift(v) * 0 for v in x_hat]], dtype=object)
+
+            def h2(x_hat, s2=s2, l1=l1):
+                x_hat = np.atleast_1d(x_hat)
+                return np.array([[SR.lift(v) - s2 + l1 for v in x_hat], [SR.lift(v) * 0 for v in x_hat]], dtype=object)
+            union = S.seminorm_h_1_2(lowdeg, SR.const(0), SR.const(l1 + l2))
+            same(S.seminorm_h_1_2_pw(emb, SR.const(s1), SR.const(s1 + l1), h1, SR.const(s2), SR.const(s2 + l2), h2), union,
+                 'H^{1/2} two-piece variant (order %d): two collinear pieces of lengths %s and %s with independent '
+                 'parameters [%s, %s], [%s, %s] do not give the value of the union interval' %
+                 (N, l1, l2, s1, s1 + l1, s2, s2 + l2), rtol=1e-10)
     return n[0]
 
 
@@ -211,6 +230,26 @@ def exact_worker(N):
 
     def viol(sig, what):
         rp = dict(kind='exact', N=list(case) if isinstance(case, (tuple, list)) else case, what=what)
+        res['violations'].append(dict(signature='%s:N=%s' % (sig, case), what=what, replay=rp, reproduced=replay(rp)))
+    prior = []
+    if isinstance(N, (tuple, list)) and N and N[0] == 'after':
+        # construction history: other objects were built earlier in this process; the last one must not inherit
+        # anything from them (rules memoised per class, per module, per one of the two orders only, ...)
+        _, prior, N = N
+        N = tuple(N)
+        for (p14, p12) in prior:
+            try:
+                exact_slobodeckij(NM, Q, p14, p12)
+            except Exception:
+                pass
+
+    target = N
+
+    def viol(sig, what):  # noqa: F811  (history cases carry the history into the replay)
+        rp = dict(kind='exact', N=list(target) if isinstance(target, (tuple, list)) else target, what=what,
+                  prior=[list(x) for x in prior])
+        if prior:
+            what = 'after constructing %s in the same process: %s' % (', '.join('Slobodeckij%s' % (tuple(x),) for x in prior), what)
         res['violations'].append(dict(signature='%s:N=%s' % (sig, case), what=what, replay=rp, reproduced=replay(rp)))
     try:
         pairN = N
@@ -294,6 +333,11 @@ def replay(rp):
                 N, N12 = N
             else:
                 N12 = min(N, 21)
+            for (p14, p12) in rp.get('prior') or []:
+                try:
+                    NM.Slobodeckij(p14, p12)
+                except Exception:
+                    pass
             try:
                 S = NM.Slobodeckij(N, N12)
             except Exception:
@@ -350,6 +394,13 @@ def replay(rp):
             u = S.seminorm_h_1_2(fl, a, a + h + k2)
             pw = S.seminorm_h_1_2_pw(lambda xh, g: fl(xh), a, a + h, g1, a + h, a + h + k2, g2)
             bad |= abs(pw - u) > 1e-9 * abs(u)
+            # independent parameters: first piece on [3.75, 3.75 + h], second on [0, k2]
+            s1 = 3.75
+            h1 = lambda xh: np.vstack([np.atleast_1d(xh) - s1, 0 * np.atleast_1d(xh)])
+            h2 = lambda xh: np.vstack([np.atleast_1d(xh) + h, 0 * np.atleast_1d(xh)])
+            u0 = S.seminorm_h_1_2(fl, 0.0, h + k2)
+            pw = S.seminorm_h_1_2_pw(lambda xh, g: fl(g(xh)[0]), s1, s1 + h, h1, 0.0, k2, h2)
+            bad |= abs(pw - u0) > 1e-9 * abs(u0)
         return bool(bad)
     except Exception:
         return True
@@ -363,6 +414,10 @@ def run(out):
     for c, r in zip(inv, report.pmap('checks.c14', 'invariance_worker', inv)):
         report.merge_worker(out, r, part='I invariances (symbolic interval)')
     orders = list(range(1, 24, 2)) + [(7, 3), (3, 7)] + ([] if quick else [(11, 5), (5, 11), (23, 1), (1, 21)])
+    # construction histories in one process: same first order / same second order / both seen before
+    orders += [('after', [(3, 3)], (3, 9)), ('after', [(3, 3)], (9, 3)), ('after', [(5, 7), (7, 5)], (5, 5))]
+    if not quick:
+        orders += [('after', [(3, None), (21, 3)], (21, 21)), ('after', [(11, 11), (3, 11), (11, 3)], (3, 3))]
     for c, r in zip(orders, report.pmap('checks.c14', 'exact_worker', orders)):
         report.merge_worker(out, r, part='E exactness / N positivity')
     out.bounds = dict(invariance_orders=[c[0] for c in inv], polynomial_degree=[c[1] for c in inv],
